@@ -150,6 +150,10 @@ func (fr *Frame) step(st *State, ins ssa.Instruction) bool {
 			p := Val{K: KPtr, T: in.Type(), P: &Place{Kind: PCell, Base: a, Elem: et}}
 			fr.set(in, p)
 			r.store(st, p, r.zeroVal(et))
+			r.cells = append(r.cells, cellRec{r.cellKey(et), a})
+			if countStores(in, 0) == 1 && storeInBlock(in) {
+				r.constCand[a] = true
+			}
 			if in.Comment != "" {
 				fr.names["&"+in.Comment] = fr.vals[in]
 			}
@@ -213,7 +217,14 @@ func (fr *Frame) step(st *State, ins ssa.Instruction) bool {
 		return fr.unop(st, in)
 
 	case *ssa.BinOp:
-		fr.set(in, fr.binop(st, in))
+		bv := fr.binop(st, in)
+		if bv.K == KInt && strings.HasPrefix(bv.S, "(") {
+			// name arithmetic results: keeps index terms atomic so quantifier patterns match
+			n := r.facts.Fresh(in.Name(), "Int")
+			r.facts.Assert(sEq(n, bv.S))
+			bv.S = n
+		}
+		fr.set(in, bv)
 		return true
 
 	case *ssa.Store:
@@ -225,6 +236,11 @@ func (fr *Frame) step(st *State, ins ssa.Instruction) bool {
 			fr.guardedWrite(st, fa, fr.val(st, fa.X), in.Pos())
 		}
 		p.T = in.Addr.Type()
+		if p.K == KPtr && p.P != nil && p.P.Kind == PCell && r.constCand[p.P.Base] {
+			vv := v
+			vv.T = in.Val.Type()
+			r.constCell[p.P.Base] = &vv
+		}
 		if !r.store(st, p, v) {
 			r.note(fmt.Sprintf("%s: unsupported store at %s", fr.fname, r.eng.pos(in.Pos())))
 		}
@@ -269,6 +285,7 @@ func (fr *Frame) step(st *State, ins ssa.Instruction) bool {
 		fr.atAnchors(st, in, false, map[string]Val{"result": v})
 		if fr.parent == nil {
 			fr.checkEnsures(st, in, v)
+			fr.checkFrame(st, in)
 		}
 		fr.rets = append(fr.rets, retRec{st.clone(), v})
 		return false
@@ -359,7 +376,7 @@ func (fr *Frame) step(st *State, ins ssa.Instruction) bool {
 		if k, _ := kindOf(et); isScalar(k) {
 			key := r.elemKey(et)
 			_, srt := kindOf(et)
-			r.set(st, key, sStore(r.get(st, key), a, "((as const (Array Int "+srt+")) "+r.zeroVal(et).S+")"))
+			r.set(st, key, sStore(r.get(st, key), a, r.zeroArray(srt, r.zeroVal(et).S)))
 		}
 		fr.set(in, Val{K: KSlice, S: fmt.Sprintf("(mk_slice %s 0 %s %s)", a, l.S, c.S)})
 		return true
@@ -469,7 +486,7 @@ func (r *Run) zeroObject(st *State, p Val) {
 		et := u.Elem()
 		if k, srt := kindOf(et); isScalar(k) {
 			key := r.elemKey(et)
-			r.set(st, key, sStore(r.get(st, key), p.S, "((as const (Array Int "+srt+")) "+r.zeroVal(et).S+")"))
+			r.set(st, key, sStore(r.get(st, key), p.S, r.zeroArray(srt, r.zeroVal(et).S)))
 		}
 	}
 }
@@ -514,6 +531,9 @@ func (fr *Frame) unop(st *State, in *ssa.UnOp) bool {
 		et := in.X.Type().Underlying().(*types.Chan).Elem()
 		v := r.freshVal("recv", et, st)
 		okv := r.freshVal("recvok", types.Typ[types.Bool], st)
+		if z := r.zeroVal(et); isScalar(z.K) && isScalar(v.K) {
+			r.facts.Assert(sImp(sNot(okv.S), sEq(v.S, z.S)))
+		}
 		fr.chanRecvAssume(st, x, v, okv)
 		if in.CommaOk {
 			fr.set(in, Val{K: KTuple, Fs: []Val{v, okv}})
@@ -872,7 +892,7 @@ func (fr *Frame) lookup(st *State, in *ssa.Lookup) {
 	lv := Val{K: vkind, T: mt.Elem(), S: n}
 	r.assumeWellTypedLoaded(lv, st)
 	if vkind == KRef || vkind == KPtr {
-		r.facts.Assert(fmt.Sprintf("(<= %s %s)", n, r.get(st, "g|$heap")))
+		r.facts.Assert(fmt.Sprintf("(<= (root %s) %s)", n, r.get(st, "g|$heap")))
 	}
 	zero := r.zeroVal(mt.Elem())
 	val := Val{K: vkind, T: mt.Elem(), S: sIte(present, n, zero.S)}
@@ -949,10 +969,9 @@ func (fr *Frame) rangeNext(st *State, in *ssa.Next) {
 	r.assumeWellTypedLoaded(kv, st)
 	r.assumeWellTypedLoaded(vv, st)
 	if vkind == KRef || vkind == KPtr {
-		r.facts.Assert(fmt.Sprintf("(<= %s %s)", vc, r.get(st, "g|$heap")))
+		r.facts.Assert(fmt.Sprintf("(<= (root %s) %s)", vc, r.get(st, "g|$heap")))
 	}
 	r.assume(st, "(>= "+pos+" 0)")
-	fr.names[fmt.Sprintf("rpos%d", ord)] = intVal(pos)
 	st.mem[posKey] = r.facts.Define("rpos", "Int", "(+ "+pos+" 1)")
 	fr.set(in, Val{K: KTuple, Fs: []Val{boolVal(okT), kv, vv}})
 }
@@ -975,6 +994,9 @@ func (fr *Frame) selectOp(st *State, in *ssa.Select) {
 		if s.Dir == types.RecvOnly {
 			et := s.Chan.Type().Underlying().(*types.Chan).Elem()
 			v := r.freshVal(fmt.Sprintf("selrecv%d", i), et, st)
+			if z := r.zeroVal(et); isScalar(z.K) && isScalar(v.K) {
+				r.facts.Assert(sImp(sAnd(sEq(idx, fmt.Sprint(i)), sNot(okv)), sEq(v.S, z.S)))
+			}
 			res.Fs = append(res.Fs, v)
 			names[fmt.Sprintf("recv%d", i)] = v
 			sub := st.clone()
@@ -997,3 +1019,60 @@ func (fr *Frame) selectOp(st *State, in *ssa.Select) {
 // ---------------------------------------------------------------------------
 
 func trimParen(s string) string { return strings.TrimSpace(s) }
+
+// zeroArray: an (Array Int srt) that is zero everywhere.
+func (r *Run) zeroArray(srt, zero string) string {
+	if srt == "Int" || srt == "Bool" {
+		return "((as const (Array Int " + srt + ")) " + zero + ")"
+	}
+	a := r.facts.Fresh("zarr", "(Array Int "+srt+")")
+	r.facts.Assert(fmt.Sprintf("(forall ((i Int)) (! (= (select %s i) %s) :pattern ((select %s i))))", a, zero, a))
+	return a
+}
+
+// countStores counts the store instructions that can write the variable cell `a`,
+// following captures into closures. A result of 1 means the variable is write-once.
+func countStores(a ssa.Value, depth int) int {
+	if depth > 4 {
+		return 99
+	}
+	refs := a.Referrers()
+	if refs == nil {
+		return 99
+	}
+	n := 0
+	for _, ref := range *refs {
+		switch x := ref.(type) {
+		case *ssa.Store:
+			if x.Addr == a {
+				n++
+			} else {
+				return 99 // the address itself is stored somewhere
+			}
+		case *ssa.UnOp:
+			// load
+		case *ssa.MakeClosure:
+			fn := x.Fn.(*ssa.Function)
+			for i, b := range x.Bindings {
+				if b == a && i < len(fn.FreeVars) {
+					n += countStores(fn.FreeVars[i], depth+1)
+				}
+			}
+		case *ssa.DebugRef:
+		default:
+			return 99 // passed to a call, phi, etc.
+		}
+	}
+	return n
+}
+
+// storeInBlock: the (single) direct store to the alloc is in the alloc's own block,
+// i.e. it is the variable's initialisation and dominates every later load.
+func storeInBlock(a *ssa.Alloc) bool {
+	for _, ref := range *a.Referrers() {
+		if st, ok := ref.(*ssa.Store); ok && st.Addr == a {
+			return st.Block() == a.Block()
+		}
+	}
+	return false
+}
